@@ -90,6 +90,21 @@ def judge_name(ctx, name, flags=None):
     ctx.case(["name", name, sorted((flags or {}).items())])
     ctx.count("name_cases")
     outs = [f.coerceElement(name), f.coerceAttribute(name)]
+    # the attribute entry point with its namespace argument: the name may be dropped (None) only for the two documented
+    # reasons, each under its own flag; otherwise the result is the one obtained without the argument
+    fl = flags or {}
+    XMLNS = "http://www.w3.org/2000/xmlns/"
+    for ns in (XMLNS, "http://www.w3.org/1999/xlink", None):
+        got = f.coerceAttribute(name, ns)
+        may_drop = bool((fl.get("dropXmlnsLocalName") and name.startswith("xmlns:")) or (fl.get("dropXmlnsAttrNs") and ns == XMLNS))
+        ctx.count("attribute_namespace_argument_cases")
+        if (got is None) != may_drop:
+            ctx.violation("attribute-dropped-or-kept-against-its-flag", dict(case, namespace=ns),
+                          "coerceAttribute(%r, %r) = %r under flags %r" % (name, ns, got, sorted(k for k, v in fl.items() if v)))
+            return None
+        if got is not None and got != outs[1]:
+            ctx.violation("attribute-namespace-argument-changes-the-name", dict(case, namespace=ns), "%r vs %r" % (got, outs[1]))
+            return None
     for out in outs:
         if out is None:
             ctx.count("attribute_dropped_by_flag")
